@@ -25,7 +25,8 @@ def small_identities():
     """exhaustive over a small alphabet of names / path segments / values"""
     segs = ["a", "b", "ab"]
     paths = segs + ["%s/%s" % (x, y) for x in segs[:2] for y in segs] + ["/a", "a/b/a"]
-    vals = ["a", "b", "ab", "a_b", "q_a", ",", ";", ":", "1,2", "1, 2", "a b", "0.5;1", "x*", "x?"]     # also values that differ only in punctuation
+    vals = ["a", "b", "ab", "a_b", "q_a", ",", ";", ":", "1,2", "1, 2", "a b", "0.5;1", "x*", "x?",
+            " ", "\t", "a ", " a", "a\t", "a  b"]     # also values that differ only in punctuation, or only in blanks around / inside them
     ids = []
     for name in ["p", "q", "P", "p q", "p_q", "p:q"]:        # names that differ only in what sanitising folds together
         ids.append((name, (), (), (), ()))
@@ -73,9 +74,9 @@ def random_identities(rng, n):
         subs = ()
         if rng.random() < 0.25:
             subs = tuple((p, mkpath(), tuple(mkpath() for _ in range(rng.randint(0, 3)))) for p in rng.sample(["j", "j2"], rng.randint(1, 2)))
-        pvals = segs + [",", ";", "1,2", "1;2", "a b", "a\tb", "50%", "x*", "{p:x}", "s/a/b/"]
+        pvals = segs + [",", ";", "1,2", "1;2", "a b", "a\tb", "50%", "x*", "{p:x}", "s/a/b/", " ", "\t", "a ", " a", "data ", "\tdata"]
         params = tuple((k, rng.choice(pvals)) for k in rng.sample(["p1", "p2", "alpha", "Z", "z", "P1", "Alpha"], rng.randint(0, 3)))
-        tags = tuple((k, rng.choice(segs)) for k in rng.sample(["in.t", "z", "a.b", "Z", "IN.t", "A.b"], rng.randint(0, 3)))
+        tags = tuple((k, rng.choice(segs + ["a ", " a", "\t"])) for k in rng.sample(["in.t", "z", "a.b", "Z", "IN.t", "A.b"], rng.randint(0, 3)))
         out.append((name, ins, subs, params, tags))
     return out
 
